@@ -43,6 +43,8 @@ class S:   # suite
 
     def lines(self):
         out = [f"begin {self.name} {self.su} {self.td}"]
+        if getattr(self, "fixture", None):      # (setup acts, teardown acts) executed by the suite's fixtures
+            out.append("fixture " + " ".join(self.fixture[0]) + ";" + " ".join(self.fixture[1]))
         for it in self.items:
             if getattr(it, "file", None) is not None:
                 out.append("file " + it.file.encode("latin-1").hex())
@@ -50,7 +52,9 @@ class S:   # suite
         return out + ["end"]
 
     def copy(self):
-        return S(self.name, self.su, self.td, [i.copy() for i in self.items])
+        c = S(self.name, self.su, self.td, [i.copy() for i in self.items])
+        if getattr(self, "fixture", None): c.fixture = self.fixture
+        return c
 
     def tests(self, path=()):
         p = path + (self.name,)
@@ -75,10 +79,14 @@ class Scen:
         ls = [f"cfg {self.cap} {self.mode}"]
         if self.kill:
             ls.append("kill " + " ".join(str(x) for x in self.kill))
+        if getattr(self, "pre", None):
+            ls.append("pre " + " ".join(self.pre))
         return "\n".join(ls + self.root.lines()) + "\n"
 
     def copy(self):
-        return Scen(self.root.copy(), self.mode, self.cap, self.kill)
+        c = Scen(self.root.copy(), self.mode, self.cap, self.kill)
+        if getattr(self, "pre", None): c.pre = self.pre
+        return c
 
 
 # ------------------------------------------------------------------------------------------------
